@@ -88,7 +88,9 @@ impl DecisionTracker {
         super::verif::undone(decision.variable);
         self.map.reset(decision.variable);
 
-        self.propagate_index = self.stack.len();
+        // Everything that is left on the stack and was propagated before still is;
+        // decisions that were still waiting for propagation keep waiting.
+        self.propagate_index = self.propagate_index.min(self.stack.len());
 
         let top_decision = self.stack.last().unwrap();
         (decision, self.map.level(top_decision.variable))
